@@ -161,6 +161,228 @@ theorem edge_agreement (P Q : Mat3 ℝ) (hP : det3 P ≠ 0) (hQ : det3 Q ≠ 0) 
   rw [← ha, ← hb] at hg'
   exact ⟨g, g', hg, hg', by rw [gi, gi'], by rw [gj, gj'], gk, gk'⟩
 
+/-! ### the bilinear quad on its edges (given the roots) -/
+
+/-- `QuadRegion.handle` in closed form: the bilinear weights divided by their norm, scattered by `order`. -/
+theorem quad_out_eq (q : QuadRegion ℝ) (p : Vec3 ℝ) (x y : ℝ) (out : List ℝ) (ho : isPermOfRange q.order 4 = true)
+    (h : q.handle (some x) (some y) p = some out) :
+    out = scatter (zeros 4) q.order ((QuadRegion.weights x y).map (· / Real.sqrt (sumsq (QuadRegion.weights x y)))) := by
+  simp only [QuadRegion.handle] at h
+  split at h
+  · simp at h
+  · simp only [Option.some.injEq] at h
+    subst h
+    unfold normalise norm
+    have hs : sumsq (scatter (zeros 4) q.order (QuadRegion.weights x y)) = sumsq (QuadRegion.weights x y) := by
+      simp only [QuadRegion.weights]
+      rw [scatter4_sumsq ho]; simp [sumsq]; ring
+    rw [hs, sqrt_real]
+    generalize Real.sqrt (sumsq (QuadRegion.weights x y)) = m
+    have hm := perm4_mem ho
+    generalize q.order = o at hm ⊢
+    simp only [List.mem_cons, List.mem_nil_iff, or_false] at hm
+    rcases hm with rfl | rfl | rfl | rfl | rfl | rfl | rfl | rfl | rfl | rfl | rfl | rfl | rfl | rfl | rfl | rfl
+        | rfl | rfl | rfl | rfl | rfl | rfl | rfl | rfl <;>
+      simp [scatter, zeros, QuadRegion.weights, List.replicate]
+
+/-- corner number `k` of the ordered quad (the `a, b, c, d` of `pan_axis`) -/
+noncomputable def QuadRegion.corner (q : QuadRegion ℝ) (k : Nat) : Vec3 ℝ :=
+  q.positions.getD (q.order.getD k 0) zero3
+
+/-- On each of its four edges (one pan value 0 or 1) a quad gives `(1-w, w)/‖(1-w, w)‖` to the edge's two corners
+    and exactly 0 to the other two. Corner order: 0-1 (y=0), 1-2 (x=1), 3-2 (y=1), 0-3 (x=0). -/
+theorem quad_on_edge (q : QuadRegion ℝ) (p : Vec3 ℝ) (w : ℝ) (out : List ℝ) (ho : isPermOfRange q.order 4 = true) :
+    let n := Real.sqrt ((1 - w) * (1 - w) + w * w)
+    (q.handle (some w) (some 0) p = some out → out = scatter (zeros 4) q.order [(1 - w) / n, w / n, 0, 0]) ∧
+    (q.handle (some 1) (some w) p = some out → out = scatter (zeros 4) q.order [0, (1 - w) / n, w / n, 0]) ∧
+    (q.handle (some w) (some 1) p = some out → out = scatter (zeros 4) q.order [0, 0, w / n, (1 - w) / n]) ∧
+    (q.handle (some 0) (some w) p = some out → out = scatter (zeros 4) q.order [(1 - w) / n, 0, 0, w / n]) := by
+  intro n
+  refine ⟨fun h => ?_, fun h => ?_, fun h => ?_, fun h => ?_⟩
+  · rw [quad_out_eq q p w 0 out ho h]
+    have : sumsq (QuadRegion.weights w (0 : ℝ)) = (1 - w) * (1 - w) + w * w := by simp [QuadRegion.weights, sumsq]
+    rw [this]; simp [QuadRegion.weights, n]
+  · rw [quad_out_eq q p 1 w out ho h]
+    have : sumsq (QuadRegion.weights (1 : ℝ) w) = (1 - w) * (1 - w) + w * w := by simp [QuadRegion.weights, sumsq]
+    rw [this]; simp [QuadRegion.weights, n]
+  · rw [quad_out_eq q p w 1 out ho h]
+    have : sumsq (QuadRegion.weights w (1 : ℝ)) = (1 - w) * (1 - w) + w * w := by
+      simp [QuadRegion.weights, sumsq]; ring
+    rw [this]; simp [QuadRegion.weights, n]
+  · rw [quad_out_eq q p 0 w out ho h]
+    have : sumsq (QuadRegion.weights (0 : ℝ) w) = (1 - w) * (1 - w) + w * w := by simp [QuadRegion.weights, sumsq]
+    rw [this]; simp [QuadRegion.weights, n]
+
+/-- A non-negative pair whose velocity vector is parallel to a direction of the open cone of `a`, `b` is, after
+    normalisation, the VBAP pair of that direction. -/
+theorem pair_agree (a b : Vec3 ℝ) (hab : cross3 a b ≠ (0, 0, 0)) (s t u v : ℝ) (hs : 0 < s) (ht : 0 < t)
+    (hu : 0 ≤ u) (hv : 0 ≤ v) (huv : 0 < u * u + v * v)
+    (hcol : cross3 (edgePoint u v a b) (edgePoint s t a b) = (0, 0, 0)) :
+    u / Real.sqrt (u * u + v * v) = s / Real.sqrt (s * s + t * t) ∧
+      v / Real.sqrt (u * u + v * v) = t / Real.sqrt (s * s + t * t) := by
+  set m := Real.sqrt (u * u + v * v) with hm
+  have hmpos : 0 < m := Real.sqrt_pos.mpr huv
+  have hmm : m * m = u * u + v * v := Real.mul_self_sqrt huv.le
+  rw [cross_edge] at hcol
+  have hk := smul3_eq_zero hcol hab
+  obtain ⟨e1, e2, e3, e4⟩ := edge_exists a b s t hs ht
+  exact edge_unique a b hab s t hs ht (u / m) (v / m) _ _
+    (div_nonneg hu hmpos.le) (div_nonneg hv hmpos.le) e1 e2 (by field_simp; nlinarith [hmm]) e3
+    (by
+      rw [cross_edge]
+      have : u / m * t - v / m * s = (u * t - v * s) / m := by field_simp
+      rw [this, hk]; simp [smul3])
+    e4
+
+/-- Agreement of the bilinear quad with VBAP on a shared edge (stated for the edge between corners 0 and 1,
+    `y = 0`): if the direction lies in the open cone of the two corners and the quad's velocity vector
+    `(1-x)·a + x·b` is parallel to the direction (which is what the selected root `x` stands for — the root selection
+    of np.roots is a parameter of the model), then the quad returns exactly the pair `(s, t)/‖(s, t)‖` on those two
+    corners — the pair every invertible triplet with the same edge returns (`triplet_on_edge`) — and 0 elsewhere. -/
+theorem quad_edge_agreement (q : QuadRegion ℝ) (x s t : ℝ) (out : List ℝ) (ho : isPermOfRange q.order 4 = true)
+    (hx0 : 0 ≤ x) (hx1 : x ≤ 1) (hs : 0 < s) (ht : 0 < t) (hab : cross3 (q.corner 0) (q.corner 1) ≠ (0, 0, 0))
+    (hcol : cross3 (edgePoint (1 - x) x (q.corner 0) (q.corner 1)) (edgePoint s t (q.corner 0) (q.corner 1)) = (0, 0, 0))
+    (h : q.handle (some x) (some 0) (edgePoint s t (q.corner 0) (q.corner 1)) = some out) :
+    out = scatter (zeros 4) q.order [s / Real.sqrt (s * s + t * t), t / Real.sqrt (s * s + t * t), 0, 0] := by
+  rw [(quad_on_edge q _ x out ho).1 h]
+  have hpos : 0 < (1 - x) * (1 - x) + x * x := by nlinarith [mul_self_nonneg (1 - x), mul_self_nonneg x]
+  obtain ⟨h1, h2⟩ := pair_agree _ _ hab s t (1 - x) x hs ht (by linarith) hx0 hpos hcol
+  simp only [h1, h2]
+
+/-- The same on the other three edges: corners 1-2 (`x = 1`), 3-2 (`y = 1`), 0-3 (`x = 0`). -/
+theorem quad_edge_agreement' (q : QuadRegion ℝ) (w s t : ℝ) (out : List ℝ) (ho : isPermOfRange q.order 4 = true)
+    (hw0 : 0 ≤ w) (hw1 : w ≤ 1) (hs : 0 < s) (ht : 0 < t) :
+    (cross3 (q.corner 1) (q.corner 2) ≠ (0, 0, 0) →
+      cross3 (edgePoint (1 - w) w (q.corner 1) (q.corner 2)) (edgePoint s t (q.corner 1) (q.corner 2)) = (0, 0, 0) →
+      q.handle (some 1) (some w) (edgePoint s t (q.corner 1) (q.corner 2)) = some out →
+      out = scatter (zeros 4) q.order [0, s / Real.sqrt (s * s + t * t), t / Real.sqrt (s * s + t * t), 0]) ∧
+    (cross3 (q.corner 3) (q.corner 2) ≠ (0, 0, 0) →
+      cross3 (edgePoint (1 - w) w (q.corner 3) (q.corner 2)) (edgePoint s t (q.corner 3) (q.corner 2)) = (0, 0, 0) →
+      q.handle (some w) (some 1) (edgePoint s t (q.corner 3) (q.corner 2)) = some out →
+      out = scatter (zeros 4) q.order [0, 0, t / Real.sqrt (s * s + t * t), s / Real.sqrt (s * s + t * t)]) ∧
+    (cross3 (q.corner 0) (q.corner 3) ≠ (0, 0, 0) →
+      cross3 (edgePoint (1 - w) w (q.corner 0) (q.corner 3)) (edgePoint s t (q.corner 0) (q.corner 3)) = (0, 0, 0) →
+      q.handle (some 0) (some w) (edgePoint s t (q.corner 0) (q.corner 3)) = some out →
+      out = scatter (zeros 4) q.order [s / Real.sqrt (s * s + t * t), 0, 0, t / Real.sqrt (s * s + t * t)]) := by
+  have hpos : 0 < (1 - w) * (1 - w) + w * w := by nlinarith [mul_self_nonneg (1 - w), mul_self_nonneg w]
+  refine ⟨fun hab hcol h => ?_, fun hab hcol h => ?_, fun hab hcol h => ?_⟩
+  · rw [(quad_on_edge q _ w out ho).2.1 h]
+    obtain ⟨h1, h2⟩ := pair_agree _ _ hab s t (1 - w) w hs ht (by linarith) hw0 hpos hcol
+    simp only [h1, h2]
+  · rw [(quad_on_edge q _ w out ho).2.2.1 h]
+    obtain ⟨h1, h2⟩ := pair_agree _ _ hab s t (1 - w) w hs ht (by linarith) hw0 hpos hcol
+    simp only [h1, h2]
+  · rw [(quad_on_edge q _ w out ho).2.2.2 h]
+    obtain ⟨h1, h2⟩ := pair_agree _ _ hab s t (1 - w) w hs ht (by linarith) hw0 hpos hcol
+    simp only [h1, h2]
+
+/-! ### the virtual n-gon on its outer edges -/
+
+theorem sumsq_replicate_zero (n : Nat) : sumsq (List.replicate n (0 : ℝ)) = 0 := by
+  induction n with
+  | zero => simp [sumsq]
+  | succ k ih => simp [List.replicate_succ, sumsq, ih]
+
+theorem sumsq_set : ∀ (l : List ℝ) (i : Nat) (x : ℝ), i < l.length →
+    sumsq (l.set i x) = sumsq l - l.getD i 0 * l.getD i 0 + x * x
+  | [], i, x, h => by simp at h
+  | y :: ys, 0, x, _ => by simp [sumsq]; ring
+  | y :: ys, i + 1, x, h => by
+    have := sumsq_set ys i x (by simpa using h)
+    simp only [List.set_cons_succ, sumsq, this, List.getD_cons_succ]
+    ring
+
+theorem zipWith_add_zero : ∀ (v cd : List ℝ), v.length ≤ cd.length →
+    List.zipWith (fun x d => x + 0 * d) v cd = v
+  | [], _, _ => by simp
+  | x :: xs, [], h => by simp at h
+  | x :: xs, d :: ds, h => by
+    simp only [List.zipWith_cons_cons, zero_mul, add_zero, List.cons.injEq, true_and]
+    have := zipWith_add_zero xs ds (by simpa using h)
+    simpa using this
+
+/-- the candidate answer of one inner triplet `r` of a virtual n-gon -/
+noncomputable def VirtualNgon.candidate (g : VirtualNgon ℝ) (r : List Nat × Mat3 ℝ) (p : Vec3 ℝ) : Option (List ℝ) :=
+  (remap r.1 (g.centreDownmix.length + 1) ((Triplet.handle r.2 p).map vecList)).map (VirtualNgon.mix g.centreDownmix)
+
+theorem ngon_handle_eq (g : VirtualNgon ℝ) (p : Vec3 ℝ) :
+    g.handle p = firstAccept (g.regions.map fun r => g.candidate r p) := rfl
+
+/-- On the outer edge between two consecutive vertices `oi`, `oj` of a virtual n-gon, the inner triplet
+    `(oi, oj, centre)` answers with exactly the VBAP pair `(s, t)/‖(s, t)‖` on `oi`, `oj` and 0 on every other
+    loudspeaker: nothing is sent to the virtual centre, so the centre downmix and the renormalisation change
+    nothing. -/
+theorem ngon_candidate_on_edge (g : VirtualNgon ℝ) (oi oj : Nat) (P : Mat3 ℝ) (hd : det3 P ≠ 0)
+    (hij : oi ≠ oj) (hi : oi < g.centreDownmix.length) (hj : oj < g.centreDownmix.length)
+    (s t : ℝ) (hs : 0 ≤ s) (ht : 0 ≤ t) (hne : s * s + t * t ≠ 0) :
+    g.candidate ([oi, oj, g.centreDownmix.length], P) (edgePoint s t P.1 P.2.1) =
+      some (((zeros g.centreDownmix.length).set oi (s / Real.sqrt (s * s + t * t))).set oj
+        (t / Real.sqrt (s * s + t * t))) := by
+  set n := g.centreDownmix.length with hn
+  set r := Real.sqrt (s * s + t * t) with hr
+  have hpos : 0 < s * s + t * t := lt_of_le_of_ne (by nlinarith [mul_self_nonneg s, mul_self_nonneg t]) (Ne.symm hne)
+  have hrpos : 0 < r := Real.sqrt_pos.mpr hpos
+  have hrr : r * r = s * s + t * t := Real.mul_self_sqrt hpos.le
+  have hp : edgePoint s t P.1 P.2.1 = comb3 s t 0 P := (comb3_edge P s t).1
+  have hh := triplet_of_comb P hd s t 0 hs ht (le_refl _) (by simpa using hne)
+  simp only [mul_zero, add_zero] at hh
+  unfold VirtualNgon.candidate
+  simp only [hp, hh, Option.map_some, remap, vecList, scatter, zero_div]
+  congr 1
+  unfold VirtualNgon.mix
+  simp only [← hn]
+  have hlen : ∀ (l : List ℝ) a b c, (((l.set oi a).set oj b).set n c).length = l.length := by simp
+  have hlast : ((((zeros (n + 1) : List ℝ).set oi (s / r)).set oj (t / r)).set n 0).getD n zero = 0 := by
+    simp [zeros, List.getD_eq_getElem?_getD]
+  rw [hlast]
+  have htake : ((((zeros (n + 1) : List ℝ).set oi (s / r)).set oj (t / r)).set n 0).take n
+      = ((zeros n : List ℝ).set oi (s / r)).set oj (t / r) := by
+    simp only [List.take_set, zeros, List.take_replicate]
+    have : min n (n + 1) = n := by omega
+    rw [this]
+    apply List.set_eq_of_length_le; simp
+  rw [htake, zipWith_add_zero _ _ (by simp [zeros, hn])]
+  have hss : sumsq (((zeros n : List ℝ).set oi (s / r)).set oj (t / r)) = 1 := by
+    rw [sumsq_set _ _ _ (by simp [zeros]; exact hj), sumsq_set _ _ _ (by simp [zeros]; exact hi)]
+    have h0 : ((zeros n : List ℝ).set oi (s / r)).getD oj 0 = 0 := by
+      simp [zeros, List.getD_eq_getElem?_getD, hij, hj]
+    have h1 : (zeros n : List ℝ).getD oi 0 = 0 := by simp [zeros, List.getD_eq_getElem?_getD, hi]
+    rw [h0, h1]
+    simp only [zeros, zero_real, sumsq_replicate_zero]
+    field_simp
+    nlinarith [hrr]
+  unfold normalise norm
+  rw [hss, sqrt_real, Real.sqrt_one]
+  simp
+
+theorem firstAccept_skip {γ : Type} : ∀ (pre : List (Option γ)) (rest : List (Option γ)),
+    (∀ r ∈ pre, r = none) → firstAccept (pre ++ rest) = firstAccept rest
+  | [], _, _ => rfl
+  | x :: xs, rest, h => by
+    have hx : x = none := h x (by simp)
+    subst hx
+    simp only [List.cons_append, firstAccept]
+    exact firstAccept_skip xs rest (fun r hr => h r (by simp [hr]))
+
+/-- n-gon version of edge agreement: if the inner triplets tried before `(oi, oj, centre)` reject the direction,
+    the virtual n-gon returns on its outer edge `oi`-`oj` exactly the pair `(s, t)/‖(s, t)‖` that every invertible
+    triplet with the same edge returns (`triplet_on_edge`), and 0 on its other loudspeakers.  (Without the hypothesis
+    on the earlier triplets the statement is false in exact arithmetic: within 1e-11 of a vertex a neighbouring inner
+    triplet may accept first and differ by O(1e-11) — the acceptance slack; that is searched, not proved.) -/
+theorem ngon_on_edge (g : VirtualNgon ℝ) (oi oj : Nat) (P : Mat3 ℝ) (pre post : List (List Nat × Mat3 ℝ))
+    (hreg : g.regions = pre ++ ([oi, oj, g.centreDownmix.length], P) :: post) (hd : det3 P ≠ 0)
+    (hij : oi ≠ oj) (hi : oi < g.centreDownmix.length) (hj : oj < g.centreDownmix.length)
+    (s t : ℝ) (hs : 0 ≤ s) (ht : 0 ≤ t) (hne : s * s + t * t ≠ 0)
+    (hpre : ∀ r ∈ pre, g.candidate r (edgePoint s t P.1 P.2.1) = none) :
+    g.handle (edgePoint s t P.1 P.2.1) =
+      some (((zeros g.centreDownmix.length).set oi (s / Real.sqrt (s * s + t * t))).set oj
+        (t / Real.sqrt (s * s + t * t))) := by
+  rw [ngon_handle_eq, hreg, List.map_append, firstAccept_skip _ _ (by
+    intro r hr
+    obtain ⟨r', hr', rfl⟩ := List.mem_map.mp hr
+    exact hpre r' hr')]
+  simp only [List.map_cons, ngon_candidate_on_edge g oi oj P hd hij hi hj s t hs ht hne, firstAccept]
+
 /-! ### piecewise continuity -/
 
 theorem continuous_clip01 : Continuous (clip01 : ℝ → ℝ) := by
@@ -371,8 +593,10 @@ example : ((1 : ℝ), 0, 0, 0, 0) ∈ stereoDomain := by simp [stereoDomain]
 theorem C12_partial :
     (type_of% @edge_unique) ∧ (type_of% @edge_exists) ∧ (type_of% @triplet_on_edge) ∧ (type_of% @edge_agreement) ∧
     (type_of% @triplet_continuousOn) ∧ (type_of% @triplet_handle_continuousOn) ∧ (type_of% @stereo_continuousOn) ∧
-    (type_of% @downmix_continuousOn) :=
+    (type_of% @downmix_continuousOn) ∧ (type_of% @quad_on_edge) ∧ (type_of% @quad_edge_agreement) ∧
+    (type_of% @quad_edge_agreement') ∧ (type_of% @ngon_candidate_on_edge) ∧ (type_of% @ngon_on_edge) :=
   ⟨@edge_unique, @edge_exists, @triplet_on_edge, @edge_agreement, @triplet_continuousOn,
-    @triplet_handle_continuousOn, @stereo_continuousOn, @downmix_continuousOn⟩
+    @triplet_handle_continuousOn, @stereo_continuousOn, @downmix_continuousOn, @quad_on_edge, @quad_edge_agreement,
+    @quad_edge_agreement', @ngon_candidate_on_edge, @ngon_on_edge⟩
 
 end Earverif.PointSource
